@@ -202,23 +202,25 @@ pub(crate) mod env {
     /// number of environment writes still allowed (symbolic freeze point for C21)
     pub static mut BUDGET: usize = 0;
 
-    pub unsafe fn raw_read(addr: usize, size: usize) -> u64 {
+    /// Raw accesses go through the original pointer (no integer-to-pointer cast: CBMC would have to
+    /// consider every object for such a pointer).
+    pub unsafe fn raw_read(p: *const u8, size: usize) -> u64 {
         unsafe {
             match size {
-                1 => *(addr as *const u8) as u64,
-                2 => *(addr as *const u16) as u64,
-                4 => *(addr as *const u32) as u64,
-                _ => *(addr as *const u64),
+                1 => *p as u64,
+                2 => *(p as *const u16) as u64,
+                4 => *(p as *const u32) as u64,
+                _ => *(p as *const u64),
             }
         }
     }
-    pub unsafe fn raw_write(addr: usize, size: usize, v: u64) {
+    pub unsafe fn raw_write(p: *mut u8, size: usize, v: u64) {
         unsafe {
             match size {
-                1 => *(addr as *mut u8) = v as u8,
-                2 => *(addr as *mut u16) = v as u16,
-                4 => *(addr as *mut u32) = v as u32,
-                _ => *(addr as *mut u64) = v,
+                1 => *p = v as u8,
+                2 => *(p as *mut u16) = v as u16,
+                4 => *(p as *mut u32) = v as u32,
+                _ => *(p as *mut u64) = v,
             }
         }
     }
@@ -234,22 +236,23 @@ pub(crate) mod env {
         }
     }
     /// Environment step on the location about to be accessed.
-    pub fn interfere(addr: usize, size: usize) {
+    pub fn interfere(p: *const u8, size: usize) {
+        let addr = p as usize;
         if let Some((w, shift, mask)) = locate(addr, size) {
             unsafe {
                 if BUDGET > 0 && kani::any() {
                     let v: u64 = kani::any();
                     let own = (OWN[w] >> shift) & mask;
                     kani::assume(v & !mask == 0 && v & own == own);
-                    raw_write(addr, size, v);
+                    raw_write(p as *mut u8, size, v);
                     BUDGET -= 1;
                 }
             }
         }
     }
     /// Guarantee check + ghost ownership update for a write of this thread.
-    pub fn guarantee(addr: usize, size: usize, old: u64, new: u64) {
-        if let Some((w, shift, mask)) = locate(addr, size) {
+    pub fn guarantee(p: *const u8, size: usize, old: u64, new: u64) {
+        if let Some((w, shift, mask)) = locate(p as usize, size) {
             let diff = (old ^ new) & mask;
             if diff != 0 {
                 unsafe {
@@ -269,8 +272,8 @@ pub(crate) mod env {
 }
 
 impl<T: Atomic> Atom<T> {
-    fn rg_addr(&self) -> usize {
-        self as *const Self as usize
+    fn rg_addr(&self) -> *const u8 {
+        self as *const Self as *const u8
     }
     pub(crate) fn load_rg(&self) -> T {
         env::interfere(self.rg_addr(), core::mem::size_of::<T>());
@@ -319,3 +322,124 @@ impl<T: Atomic> Atom<T> {
         }
     }
 }
+
+// ---------------------------------------------------------------------------------------------
+// Rely/guarantee for whole huge frames (table entries, u16): orders >= HUGE_ORDER allocate and free
+// only through `compare_exchange_all` over entries.
+//   RELY      : other threads never change an entry this thread owns as a whole huge frame;
+//               otherwise they may store any value.
+//   GUARANTEE : this thread writes an entry only free(LEN) -> huge (claim) or, if it owns it,
+//               huge -> free(LEN) (release).
+// ---------------------------------------------------------------------------------------------
+pub(crate) mod eenv {
+    pub const MAXE: usize = 8;
+    pub static mut ON: bool = false;
+    pub static mut BASE: usize = 0;
+    pub static mut N: usize = 0;
+    pub static mut OWN: [bool; MAXE] = [false; MAXE];
+    pub static mut BUDGET: usize = 0;
+    pub const FREE: u16 = crate::HUGE_FRAMES as u16;
+    pub const HUGE: u16 = u16::MAX;
+    fn locate(addr: usize) -> Option<usize> {
+        let (b, n) = unsafe { (BASE, N) };
+        if unsafe { ON } && addr >= b && addr < b + 2 * n { Some((addr - b) / 2) } else { None }
+    }
+    pub fn interfere(p: *const u8) {
+        if let Some(i) = locate(p as usize) {
+            unsafe {
+                if !OWN[i] && BUDGET > 0 && kani::any() {
+                    *(p as *mut u16) = kani::any();
+                    BUDGET -= 1;
+                }
+            }
+        }
+    }
+    pub fn guarantee(p: *const u8, old: u16, new: u16) {
+        if let Some(i) = locate(p as usize) {
+            if old != new {
+                unsafe {
+                    let claim = old == FREE && new == HUGE;
+                    let release = old == HUGE && new == FREE && OWN[i];
+                    kani::assert(claim || release, "C01 guarantee: an entry is written only to claim an entirely free huge frame or to release one this thread owns");
+                    OWN[i] = claim;
+                }
+            }
+        }
+    }
+}
+impl<T: Atomic> Atom<T> {
+    /// compare_exchange under the entry environment (T is a 2-byte entry type).
+    pub(crate) fn compare_exchange_erg(&self, current: T, new: T) -> core::result::Result<T, T> {
+        let a = self.rg_addr();
+        eenv::interfere(a);
+        let old = unsafe { *(a as *const u16) };
+        match self.0.compare_exchange(current.into(), new.into()) {
+            Ok(v) => {
+                eenv::guarantee(a, old, unsafe { *(a as *const u16) });
+                Ok(v.into())
+            }
+            Err(v) => Err(v.into()),
+        }
+    }
+}
+
+/// `compare_exchange_all` claiming (alloc) / releasing (free) N whole huge frames under interference.
+fn rg_cas_all<const N: usize>(free: bool) {
+    let init: [u16; 4] = kani::any();
+    let tab: crate::util::Align<[Atom<u16>; 4]> = crate::util::Align(core::array::from_fn(|i| Atom::new(init[i])));
+    let first: usize = kani::any();
+    kani::assume(first < 4 && first % N == 0 && first + N <= 4);
+    let own0: [bool; 4] = kani::any();
+    let mut i = 0;
+    while i < 4 {
+        kani::assume(!own0[i] || init[i] == eenv::HUGE); // owned entries carry the marker
+        if free {
+            kani::assume(i < first || i >= first + N || own0[i]); // the caller holds the block
+        }
+        i += 1;
+    }
+    unsafe {
+        eenv::BASE = &tab.0[0] as *const Atom<u16> as usize;
+        eenv::N = 4;
+        let mut i = 0;
+        while i < 4 {
+            eenv::OWN[i] = own0[i];
+            i += 1;
+        }
+        eenv::BUDGET = kani::any();
+        eenv::ON = true;
+    }
+    let r = if free { tab.0[first..first + N].compare_exchange_all(eenv::HUGE, eenv::FREE) } else { tab.0[first..first + N].compare_exchange_all(eenv::FREE, eenv::HUGE) };
+    vcover!(r.is_ok(), "multi-entry exchange succeeds under interference");
+    let mut i = 0;
+    while i < 4 {
+        let own = unsafe { eenv::OWN[i] };
+        let inside = i >= first && i < first + N;
+        if free {
+            clause!(r.is_ok(), "C03: the free of held huge frames succeeds under every interleaving");
+            clause!(own == (own0[i] && !inside), "C01: a huge free releases exactly the block");
+        } else if r.is_ok() {
+            clause!(own == (own0[i] || inside), "C01: a successful huge allocation owns exactly the block, under every interleaving");
+            clause!(!(inside && own0[i]), "C01: the allocated huge frames were not already held by this thread");
+        } else {
+            clause!(own == own0[i], "C01: a failed huge allocation keeps nothing (rollback), under every interleaving");
+        }
+        i += 1;
+    }
+}
+macro_rules! erg_harness {
+    ($name:ident, $n:expr, $free:expr) => {
+        #[kani::proof]
+        #[kani::unwind(8)]
+        #[kani::stub(crate::atomic::Atom::compare_exchange, crate::atomic::Atom::compare_exchange_erg)]
+        fn $name() {
+            rg_cas_all::<$n>($free);
+        }
+    };
+}
+erg_harness!(rg_cas_all_alloc_n1, 1, false);
+erg_harness!(rg_cas_all_alloc_n2, 2, false);
+erg_harness!(rg_cas_all_alloc_n4, 4, false);
+erg_harness!(rg_cas_all_free_n1, 1, true);
+erg_harness!(rg_cas_all_free_n2, 2, true);
+erg_harness!(rg_cas_all_free_n4, 4, true);
